@@ -88,3 +88,27 @@ Definition is_dump (f : gfunc) : bool :=
 
 Theorem tie_dump : is_dump fn_ShardedMap_Dump = true /\ is_dump fn_ShardedMapOf_Dump = true /\ is_dump fn_SyncMap_Dump = true.
 Proof. repeat split; reflexivity. Qed.
+
+(* the legacy (untyped) walker of a ShardedMapOf, used by its WalkDumpRestorer for HTTP transfer: the same visit
+   discipline, the callback receives an untyped TraitEntry copy with K, V and the atomically loaded E *)
+Theorem tie_walk_visit_legacy : forall cb_ok e c n,
+  let copy := VRec "TraitEntry" [("K", VPtr true "key of the entry"); ("V", VPtr true "value of the entry"); ("E", VZ e)] in
+  run_visit fn_shardedMapLegacyWalkerOf_Walk cb_ok e c n =
+    Some (if cb_ok then ([("RUnlock", []); ("callback", [copy]); ("RLock", [])], n + 1, VisitNext)
+          else ([("RUnlock", []); ("callback", [copy])], n, VisitStop n)).
+Proof. intros [|] e c n; reflexivity. Qed.
+
+(* ShardedMapOf.WalkDumpRestorer: dumps and restores go to the cache itself, walks to the legacy walker over the
+   same shards *)
+Definition run_wdr : option (list effect * option value) :=
+  run (fun f args s => match f, args with
+                       | "shardedMapLegacyWalkerOf[V]", [v] => Some (VRec "legacy walker over" [("shards of", v)], s)
+                       | "$zero", [VStr _] => Some (VNil, s)
+                       | _, _ => None end)
+      no_fcmp no_loop (fun _ s => Some (eff s, lookup "lc" (env s))) (fun _ => None) fn_ShardedMapOf_WalkDumpRestorer
+      [VPtr true "c"] [("*c", VPtr true "*c")] (fun _ => None).
+
+Theorem tie_walk_dump_restorer :
+  run_wdr = Some ([("assign w.Dumper", [VPtr true "c"]); ("assign w.Walker", [VRef "lc"]); ("assign w.Restorer", [VPtr true "c"])],
+                  Some (VRec "legacy walker over" [("shards of", VPtr true "*c")])).
+Proof. reflexivity. Qed.
